@@ -1035,7 +1035,8 @@ def wl_uncertainty(spec, rec, cmp, envs, rng):
     except Exception:  # noqa: BLE001
         rec.inconc("uncertainties not importable")
         return
-    lits = [("3.0", "0.5"), ("2.5", "0.25"), ("10", "1"), ("0.125", "0.0625"), ("8.0", "0.4")]
+    lits = [("3.0", "0.5"), ("2.5", "0.25"), ("10", "1"), ("0.125", "0.0625"), ("8.0", "0.4"),
+            ("0.0", "0.5"), ("0", "2")]     # a zero nominal value keeps its standard deviation (and its exponent)
     spell = [("{n} +/- {s}", "bare"), ("{n}+/-{s}", "bare"), ("{n} ± {s}", "bare"), ("{n}±{s}", "bare"),
              ("({n} +/- {s})", "paren"), ("({n}+/-{s})", "paren"), ("({n} ± {s})", "paren"), ("({n}±{s})", "paren"),
              ("( {n} +/- {s} )", "paren")]
